@@ -118,9 +118,9 @@ Fixpoint decode_chunked (fuel : nat) (s : bytes) : option (bytes * bytes) :=
               | None => None
               end
             else
-              let k := N.to_nat n in
-              if Nat.ltb (length rest) (k + 2) then None
+              if lenN rest <? n + 2 then None           (* compared in N: n may be astronomically large *)
               else
+                let k := N.to_nat n in
                 let data := firstn k rest in
                 let after := skipn k rest in
                 if negb (startswith after [13; 10]) then None
@@ -153,9 +153,9 @@ Definition parse_one (is_head : bool) (s : bytes) : option (response * bytes) :=
           | Some FNoBody => Some (mkResponse sl fields FNoBody [], rest)
           | Some FEof => Some (mkResponse sl fields FEof rest, [])
           | Some (FLength n) =>
-              let k := N.to_nat n in
-              if Nat.ltb (length rest) k then None
-              else Some (mkResponse sl fields (FLength n) (firstn k rest), skipn k rest)
+              if lenN rest <? n then None
+              else let k := N.to_nat n in
+                   Some (mkResponse sl fields (FLength n) (firstn k rest), skipn k rest)
           | Some FChunked =>
               match decode_chunked (S (length rest)) rest with
               | Some (body, rest') => Some (mkResponse sl fields FChunked body, rest')
